@@ -23,3 +23,18 @@ package types
 //@   same_as x/auth/keeper.Keeper.SendCoinsFromModuleToAccount
 //@ iface func (ak AuthKeeper) BurnCoins(ctx sdk.Ctx, name string, amt sdk.Coins) (err sdk.Error)
 //@   same_as x/auth/keeper.Keeper.BurnCoins
+
+// C17 (hand-over): after SetOwner the list names ownerValue for permKey - the FIRST entry with that key carries it (that is
+// the entry GetOwner / VerifyACL read) - every entry is considered for replacement, the last one included (seed C17g); no
+// other key's entries change, and at most one entry is appended, for permKey
+//@ func (a *ACL) SetOwner(permKey string, ownerValue sdk.Address)
+//@   props C17
+//@   requires a != nil
+//@   modifies *a, elems(*a)
+//@   loop 1 frame
+//@   loop 1 invariant 0 - 1 <= #rangeindex && #rangeindex < len(old(*a)) && *a == old(*a)
+//@   loop 1 invariant forall j int :: 0 <= j && j <= #rangeindex ==> old((*a)[j]).Key != permKey
+//@   loop 1 invariant forall j int :: 0 <= j && j < len(old(*a)) ==> (*a)[j] == old((*a)[j])
+//@   ensures [owner] exists i int :: 0 <= i && i < len(*a) && (*a)[i].Key == permKey && (*a)[i].Addr == ownerValue && (forall j int :: 0 <= j && j < i ==> (*a)[j].Key != permKey)
+//@   ensures [others] len(*a) >= len(old(*a)) && len(*a) <= len(old(*a)) + 1 && (forall j int :: 0 <= j && j < len(old(*a)) ==> (*a)[j].Key == old((*a)[j]).Key && ((*a)[j].Key != permKey ==> (*a)[j].Addr == old((*a)[j]).Addr))
+//@   ensures [appended] len(*a) == len(old(*a)) + 1 ==> (*a)[len(old(*a))].Key == permKey
